@@ -70,5 +70,5 @@ def get_keywords(directory: str = "") -> Registry:
                 keywords.discard(b"")
             if not keywords:
                 continue
-            keyword_map.append(partial(find_keywords, file_name, keywords))
+            keyword_map.append(partial(find_keywords, file_name, sorted(keywords)))
     return keyword_map
